@@ -145,10 +145,33 @@ func TestC28(t *testing.T) {
 		// segmentation
 		var cuts []int
 		ncut := rapid.IntRange(0, 6).Draw(rt, "ncut")
-		for i := 0; i < ncut; i++ {
-			cuts = append(cuts, rapid.IntRange(1, len(stream)).Draw(rt, "cut"))
+		// half of the cuts fall on structural boundaries: right after a CR, an LF, a CRLF or the
+		// "0" of a last chunk (e.g. between "0\r\n" and the final "\r\n" of a chunked body)
+		var edges []int
+		for i := 1; i < len(stream); i++ {
+			if stream[i-1] == '\r' || stream[i-1] == '\n' || (stream[i-1] == '0' && stream[i] == '\r') {
+				edges = append(edges, i)
+			}
 		}
-		cls := []string{fmt.Sprintf("nreq:%d", k), fmt.Sprintf("backend-keepalive:%v", pfx == "/c28k")}
+		// ... and the place where a chunked body is one CRLF short of complete gets extra weight
+		var hot []int
+		for i := 0; i+5 <= len(stream); i++ {
+			if string(stream[i:i+5]) == "\r\n0\r\n" {
+				hot = append(hot, i+5)
+			}
+		}
+		for i := 0; i < ncut; i++ {
+			if len(hot) > 0 && rapid.IntRange(0, 2).Draw(rt, "cut-before-final-crlf") == 0 {
+				cuts = append(cuts, rapid.SampledFrom(hot).Draw(rt, "hot"))
+			} else if len(edges) > 0 && rapid.Bool().Draw(rt, "cut-at-edge") {
+				cuts = append(cuts, rapid.SampledFrom(edges).Draw(rt, "edge"))
+			} else {
+				cuts = append(cuts, rapid.IntRange(1, len(stream)).Draw(rt, "cut"))
+			}
+		}
+		// the segments are either written back to back or spaced so that BFE reads them one by one
+		spaced := ncut > 0 && rapid.Bool().Draw(rt, "spaced-segments")
+		cls := []string{fmt.Sprintf("nreq:%d", k), fmt.Sprintf("backend-keepalive:%v", pfx == "/c28k"), fmt.Sprintf("spaced-segments:%v", spaced)}
 		for _, s := range shape {
 			cls = append(cls, "kind:"+s)
 		}
@@ -179,6 +202,9 @@ func TestC28(t *testing.T) {
 						return
 					}
 					prev = cut
+					if spaced && cut < len(stream) {
+						time.Sleep(3 * time.Millisecond)
+					}
 				}
 			}
 		}()
